@@ -68,7 +68,7 @@ claimed = {
         "Proved (`assigns` clauses, every store, map update, call and C call checked against them): (*kmac128).ComputeHash writes nothing that exists at entry (it works on a clone; Clone/Write/Read of the cSHAKE state per the assumed x/crypto contract) and leaves the shared sponge ghost state unchanged; "
         "(*prKeyBLSBLS12381).Sign, (*pubKeyBLSBLS12381).Verify, BLSVerifyPOP (which shares the package-level popKMAC hasher), SPOCKVerify write no existing memory: keys (`unchanged(pk.point)`, `unchanged(pk.isIdentity)`), message and signature buffers are outside the frame, results are fresh buffers, and the hasher is only used through ComputeHash whose interface contract leaves its configuration untouched; "
         "the C functions they reach (bls_sign, bls_verify, bls_spock_verify, E1/E2 readers and writers) are verified from the clang AST to write only their out-parameters and locals. Each function's postcondition gives the result as a function of the argument values, hence `what it returns when run alone`. "
-        "NOT covered: aggregate verification (VerifyBLSSignatureOneMessage/ManyMessages), batch verification and ECDSA Sign/Verify (not under contract); a Hasher other than KMAC128 is only known through the interface contract (its ComputeHash may write its own state, which is why the property asks for per-goroutine hashers there).",
+        "Likewise (added later): VerifyBLSSignatureOneMessage and BatchVerifyBLSSignaturesOneMessage (frame: only the ghost state of the one KMAC hasher; keys, signatures and message untouched; the batch seed is a fresh buffer), AggregateBLSSignatures / AggregateBLSPrivateKeys (nothing assigned), ECDSA (*prKeyECDSA).Sign and (*pubKeyECDSA).Verify (frame: only the ghost state of the hasher argument, which is why the property asks for per-goroutine hashers; `key-untouched` postconditions). NOT covered: VerifyBLSSignatureManyMessages (its frame is `everything`: the grouping maps it builds are not separated from the arguments in the contract); a Hasher other than KMAC128 is only known through the interface contract (its ComputeHash may write its own state, which is why the property asks for per-goroutine hashers there).",
    note=TRUSTED + " The Go memory model is not modelled: `no write to pre-existing memory => no data race` is the paper step. BLST primitives are assumed to write only their out-parameters (const-qualified parameters are assumed unwritten: default leaf contract).",
    design="§0.2, §5 C19"),
  "C18": dict(
